@@ -233,7 +233,7 @@ func cmdBatch(args []string) int {
 		spec.Free = *free
 		rr := runSpec(spec, func(solo int64) { finalizeSchedule(spec, rng, fset, solo) }, rl)
 		progressBump()
-		if *auditEvery > 0 && run%*auditEvery == 0 && len(rr.Violations) == 0 && !spec.Free {
+		if *auditEvery > 0 && (run%*auditEvery == 0 || (spec.Siblings && run%3 == 0)) && len(rr.Violations) == 0 && !spec.Free {
 			if vs, err := auditHistory(spec, rr, *nsites, *out); err != nil {
 				rep.Infra = append(rep.Infra, err.Error())
 			} else {
